@@ -330,6 +330,20 @@ func init() {
 			gn.W.R.Probe("token-burst")
 			return last
 		}},
+		// a rich user without a sentinel deposits and registers in one go; one with a sentinel revokes it
+		Flow{"sentinel-lifecycle", func(gn *Gen, n *simnode.Node) *nom.AccountBlock {
+			x := gn.richUser()
+			info := definition.GetSentinelInfoByOwner(n.Chain.GetFrontierMomentumStore().GetAccountStore(types.SentinelContract).Storage(), x)
+			if info == nil {
+				gn.do(n, "common.DepositQsr", x, types.SentinelContract, types.QsrTokenStandard, new(big.Int).Set(constants.SentinelQsrDepositAmount), definition.ABICommon.PackMethodPanic(definition.DepositQsrMethodName))
+				return gn.do(n, "sentinel.Register", x, types.SentinelContract, types.ZnnTokenStandard, new(big.Int).Set(constants.SentinelZnnRegisterAmount),
+					definition.ABISentinel.PackMethodPanic(definition.RegisterSentinelMethodName))
+			}
+			if info.RevokeTimestamp == 0 {
+				return gn.do(n, "sentinel.Revoke", x, types.SentinelContract, types.ZnnTokenStandard, big.NewInt(0), definition.ABISentinel.PackMethodPanic(definition.RevokeSentinelMethodName))
+			}
+			return nil
+		}},
 		Flow{"pillar-burst", func(gn *Gen, n *simnode.Node) *nom.AccountBlock {
 			t := gn.W.R.T
 			name := gn.PillarNames[t.Choose(len(gn.PillarNames))]
